@@ -233,7 +233,11 @@ def build_harness(bins):
         open(ct, "w").write(tmpl)
     lock = os.path.join(hd, "Cargo.lock")
     if not os.path.exists(lock):
-        open(lock, "w").write(open(os.path.join(REPO, "Cargo.lock")).read())
+        # Cargo.lock is not tracked by the repository, so a git worktree does not have one
+        src = os.path.join(REPO, "Cargo.lock")
+        if not os.path.exists(src):
+            src = "/repo/Cargo.lock"
+        open(lock, "w").write(open(src).read())
     cmd = ["cargo", "build", "--release", "--offline"]
     for b in bins:
         cmd += ["--bin", b]
